@@ -602,7 +602,7 @@ Section C06T.
     - (* Exit *)
       assert (Hwx : exists op, tk_ctxs tk = op ++ [c]) by (inversion Hwn; subst; eauto).
       destruct Hwx as (op & Eop).
-      rewrite (exit_ctx_eff t c s None tk Hg).
+      rewrite (exit_ctx_eff t c s None tk Hg Hcact).
       assert (Hrm : remove_ctx c (tk_ctxs tk) = op) by (rewrite Eop; apply remove_ctx_last; rewrite <- Eop; exact Hnd).
       rewrite Hrm.
       pose proof (set_task_upd s t None tk (tk_with_ctxs tk op (tk_cact tk)) Hg) as (A1 & B1 & _).
@@ -800,14 +800,18 @@ Section C06T_theorems.
   Qed.
 End C06T_theorems.
 
-(* ------------------------------------------------------------------ the alternation clause is FALSE beyond contexts that cannot fail *)
-(* The statement for every program whose with-blocks are well nested (dropping [tree], i.e. allowing contexts whose
-   pause()/resume() raise) is false in the faithful model.  A task opens AsyncContext 1, inside it a NonAsyncContext 2,
-   and awaits a batch item.  When the scheduler leaves the blocked task, _pause_contexts pauses context 2 (which
-   raises: kept as the error) and context 1 (EvPause); the error is then delivered with _accept_error, which closes
-   the suspended generator, whose with-blocks run __exit__: context 1 is paused a SECOND time (async_task.py
-   _pause_contexts 391-407 -> _accept_error -> _computed 150-162 -> generator.close() -> contexts.py __exit__ 93-99).
-   The events of ([0], 1) are resume, pause, pause. *)
+(* ------------------------------------------------------------------ beyond contexts that cannot fail *)
+(* History of this section.  The statement below (every program whose with-blocks are well nested: dropping [tree],
+   i.e. allowing NonAsyncContext and contexts whose pause()/resume() raise) was first REFUTED in the model: a task that
+   opens AsyncContext 1, inside it a NonAsyncContext 2, and awaits a batch item got the events resume, pause, pause
+   for context 1 - _pause_contexts paused it, the NonAsyncContext's assertion then completed the task, _computed
+   closed the suspended generator and the with-block's __exit__ paused context 1 a second time (async_task.py
+   _pause_contexts -> _accept_error -> _computed -> generator.close() -> contexts.py __exit__).  The witness
+   reproduced on the implementation (it was the known finding C06:alternation / double-pause) and was repaired in
+   /repo (fix: AsyncContext.__exit__ does not call pause() again when the task's contexts are already paused); the
+   model follows the repaired code (Machine.exit_ctx).  On the repaired model the former witnesses alternate
+   (c06_former_witnesses_alternate below, by vm_compute).  The general statement is now neither proved nor refuted:
+   it stays a Definition. *)
 Definition alternation_all_contexts_statement : Prop :=
   forall P, pointwise P -> forall p, wn [] p -> forall n t cid,
     no_unwind P n (start (fst (create [] (FTask p) (st0 P))) (snd (create [] (FTask p) (st0 P)))) ->
@@ -832,39 +836,22 @@ Proof.
   specialize (H k). rewrite in_seq in H. apply negb_true_iff. apply H. lia.
 Qed.
 
-Lemma c06_cx_events :
-  let P := mkP [] 1000 false [] in
-  let h := fst (create [] (FTask c06_cx) (st0 P)) in
-  let s1 := snd (create [] (FTask c06_cx) (st0 P)) in
-  no_unwind_b P 100 (start h s1) = true /\
-  c_mode (run P 100 (start h s1)) = MDone (Err E_NONASYNC) /\
-  ctx_events [0] 1 (trace (c_st (run P 100 (start h s1)))) = [EvResume [0] 1; EvPause [0] 1; EvPause [0] 1].
-Proof. vm_compute. repeat split. Qed.
-
-Theorem alternation_all_contexts_is_false : ~ alternation_all_contexts_statement.
-Proof.
-  intros H. destruct c06_cx_events as (Hn & _ & He). cbn zeta in Hn, He.
-  pose proof (H (mkP [] 1000 false []) (fun _ => eq_refl) c06_cx c06_cx_wn 100%nat [0] 1%Z (no_unwind_b_sound _ _ _ Hn)) as H2.
-  clear H. rewrite He in H2. clear He Hn. cbn [alternates negb] in H2. destruct H2 as (_ & _ & H2 & _). discriminate.
-Qed.
-
-(* a second witness: one AsyncContext whose first scheduler-driven pause() raises is enough - its pause() is called
-   again by the __exit__ that generator.close() runs; when the first scheduler-driven resume() raises instead, the
-   events of this run do alternate (resume, pause, resume, pause) *)
 Definition c06_cx_one (c : ctxk) : prog :=
   Enter c (Yield (YLeaf (LNew (FItem 0 1 (ASet (VInt 5)))))
              (fun o => Exit c (match o with Ok v => Ret v | Err e => Raise e end))).
 
-Lemma c06_cx_one_events :
+Lemma c06_former_witnesses_alternate :
   let P := mkP [] 1000 false [] in
   let ev p := let h := fst (create [] (FTask p) (st0 P)) in
               let s1 := snd (create [] (FTask p) (st0 P)) in
               (no_unwind_b P 100 (start h s1), c_mode (run P 100 (start h s1)),
                ctx_events [0] 1 (trace (c_st (run P 100 (start h s1))))) in
-  ev (c06_cx_one (CAsync 1 (PauseRaises 1 77))) = (true, MDone (Err 77), [EvResume [0] 1; EvPause [0] 1; EvPause [0] 1]) /\
+  wn [] c06_cx /\
+  ev c06_cx = (true, MDone (Err E_NONASYNC), [EvResume [0] 1; EvPause [0] 1]) /\
+  ev (c06_cx_one (CAsync 1 (PauseRaises 1 77))) = (true, MDone (Err 77), [EvResume [0] 1; EvPause [0] 1]) /\
   ev (c06_cx_one (CAsync 1 (ResumeRaises 1 77))) =
     (true, MDone (Err 77), [EvResume [0] 1; EvPause [0] 1; EvResume [0] 1; EvPause [0] 1]).
-Proof. vm_compute. split; reflexivity. Qed.
+Proof. split; [exact c06_cx_wn|]. vm_compute. repeat split. Qed.
 
 (* ------------------------------------------------------------------ non-vacuity *)
 (* non-vacuity: a parent opens AsyncContext 1, awaits a child (which opens its own context 1 and blocks on a batch
